@@ -344,19 +344,31 @@ fn token_strings(units: &[&str], max: usize) -> Vec<String> {
 const TEXT_UNITS: &[&str] = &["a", "1", " ", "<", ">", "&", "\"", "'", "]]>", "&amp;", "&#60;", ";", "=", "/", "\\", "\x7f"];
 const HANDLE_UNITS: &[&str] = &["a", "Z", "0", "9", "-", "_", "/"];
 
-fn text_alphabet(max: usize) -> Vec<String> {
-    let mut v = token_strings(TEXT_UNITS, max);
+/// Returns the alphabet and the size of its "mid" prefix (strings of at most
+/// two units plus the long values); strings of three units follow the prefix.
+fn text_alphabet(max: usize) -> (Vec<String>, usize) {
+    let mut v = token_strings(TEXT_UNITS, 2);
     for (c, n) in [("a", 255), ("a", 256), ("a", 1024), ("&", 1024), ("<", 256), ("\"", 255), ("'", 255), ("]]>", 341), ("a b", 256)] {
         v.push(c.repeat(n).chars().take(1024).collect());
     }
-    v
+    let mid = v.len();
+    if max > 2 {
+        let have: HashSet<String> = v.iter().cloned().collect();
+        v.extend(token_strings(TEXT_UNITS, max).into_iter().filter(|s| !have.contains(s)));
+    }
+    (v, mid)
 }
 
-fn handle_alphabet(max: usize) -> Vec<String> {
-    let mut v = token_strings(HANDLE_UNITS, max);
+fn handle_alphabet(max: usize) -> (Vec<String>, usize) {
+    let mut v = token_strings(HANDLE_UNITS, 2);
     v.retain(|s| !s.is_empty());
     for (c, n) in [("a", 254), ("a", 255), ("/", 255), ("-", 255), ("_", 255)] { v.push(c.repeat(n)) }
-    v
+    let mid = v.len();
+    if max > 2 {
+        let have: HashSet<String> = v.iter().cloned().collect();
+        v.extend(token_strings(HANDLE_UNITS, max).into_iter().filter(|s| !s.is_empty() && !have.contains(s)));
+    }
+    (v, mid)
 }
 
 const URI_PUNCT: &str = "!$%&'()*+,-.:;=_~";
@@ -436,6 +448,19 @@ fn star(full: &[usize], core: &[&[usize]], k: usize) -> Vec<Vec<usize>> {
     out
 }
 
+/// star(mid, core, k) plus, for every coordinate, its values beyond the mid
+/// prefix with all other coordinates on their core (no tuple twice).
+fn star2(full: &[usize], mid: &[usize], core: &[&[usize]], k: usize) -> Vec<Vec<usize>> {
+    let mut out = star(mid, core, k);
+    for i in 0..full.len() {
+        if full[i] <= mid[i] { continue }
+        let mut dims: Vec<usize> = mid.to_vec();
+        dims[i] = full[i];
+        for t in star(&dims, core, 1) { if t[i] >= mid[i] { out.push(t) } }
+    }
+    out
+}
+
 fn fnv64(b: &[u8]) -> u64 {
     let mut h = 0xcbf29ce484222325u64;
     for x in b { h ^= *x as u64; h = h.wrapping_mul(0x100000001b3); }
@@ -453,7 +478,11 @@ struct Fx {
     csrs: Vec<(&'static str, RpkiCaCsr)>,
     idcerts: Vec<(&'static str, Vec<u8>)>,
     texts: Vec<String>,
+    texts_mid: usize,
     handles: Vec<String>,
+    handles_mid: usize,
+    h_a255: usize,
+    h_slash255: usize,
     rsyncs: Vec<uri::Rsync>,
     httpss: Vec<uri::Https>,
     services: Vec<idx::ServiceUri>,
@@ -494,10 +523,15 @@ impl Fx {
         let idcerts = vec![("id_ta", read("ca/id_ta.cer")), ("id_afrinic", read("ca/id_afrinic.cer")),
             ("1octet", vec![0x30]), ("2octets", vec![0xff, 0x00]), ("4octets", b"<&\"'".to_vec()), ("1KiB", vec![0x5A; 1024])];
         let max = ctx.tier.pick(2, 3);
+        let (texts, texts_mid) = text_alphabet(max);
+        let (handles, handles_mid) = handle_alphabet(max);
         Fx {
+            h_a255: handles.iter().position(|h| *h == "a".repeat(255)).unwrap(),
+            h_slash255: handles.iter().position(|h| *h == "/".repeat(255)).unwrap(),
+            texts_mid, handles_mid,
             contents: content_alphabet(certs[0].1.to_captured().as_slice()),
             certs, csrs, idcerts,
-            texts: text_alphabet(max), handles: handle_alphabet(max),
+            texts, handles,
             rsyncs: rsync_alphabet(), httpss: https_alphabet(), services: service_alphabet(),
             hashes: hash_alphabet(), keys: key_alphabet(),
             asn: AS_ATOMS.iter().map(|s| AsBlocks::from_str(s).expect("AS atom")).chain([AsBlocks::all(), AsBlocks::empty()]).collect(),
@@ -508,6 +542,8 @@ impl Fx {
     }
     /// tag alphabet: index 0 = None, 1 = Some(""), then Some(text) for every non-empty text
     fn n_tags(&self) -> usize { self.texts.len() + 1 }
+    fn n_tags_mid(&self) -> usize { self.texts_mid + 1 }
+    fn n_classes_mid(&self) -> usize { self.texts_mid - 1 }
     fn tag(&self, i: usize) -> Option<String> { if i == 0 { None } else { Some(self.texts[i - 1].clone()) } }
     /// class names: xsd:token with minLength 1 -> texts without the empty one (texts[0] == "")
     fn n_classes(&self) -> usize { self.texts.len() - 1 }
@@ -527,13 +563,23 @@ impl Fx {
 
 #[derive(Default)]
 struct Local {
+    /// false: a failing case only raises `failed` (parallel phase); true: it is reported
+    report: bool,
+    failed: bool,
+    rejected_seeds: Vec<String>,
     evals: u64,
     docs: Vec<u64>,
     outcomes: BTreeMap<&'static str, u64>,
 }
 
 impl Local {
+    fn reporting() -> Local { Local { report: true, ..Local::default() } }
     fn bump(&mut self, k: &'static str) { *self.outcomes.entry(k).or_insert(0) += 1 }
+    /// Violations are reported in case order, not in thread-arrival order: the
+    /// parallel phase only marks the case, `run_cases` re-executes marked cases sequentially.
+    fn fail(&mut self, ctx: &Ctx, oracle: String, wit: &dyn Fn() -> String, detail: String) {
+        if self.report { ctx.fail(&oracle, wit(), detail) } else { self.failed = true }
+    }
 }
 
 struct Collector { sp: std::sync::Arc<Space>, docs: Mutex<HashSet<u64>> }
@@ -560,38 +606,47 @@ fn roundtrip<M: PartialEq + std::fmt::Debug>(
     l.evals += 1;
     let doc = match guard(|| write(m)) {
         Ok(d) => d,
-        Err(p) => { ctx.fail(&format!("C11.{area}.write.nopanic"), wit(), p); l.bump("write-panicked"); return }
+        Err(p) => { l.fail(ctx, format!("C11.{area}.write.nopanic"), wit, p); l.bump("write-panicked"); return }
     };
     l.docs.push(fnv64(&doc));
     match wf_check(&doc) {
         Ok(sp) => {
             l.bump(if sp.refs > 0 { "written-with-references" } else { "written-plain" });
             if let Err(e) = qx_check(&doc) {
-                ctx.fail(&format!("C11.{area}.wellformed"), wit(), format!("{e}; document: {}", trunc(&String::from_utf8_lossy(&doc), 400)));
+                l.fail(ctx, format!("C11.{area}.wellformed"), wit, format!("{e}; document: {}", trunc(&String::from_utf8_lossy(&doc), 400)));
             }
         }
         Err(e) => {
             l.bump("written-malformed");
-            ctx.fail(&format!("C11.{area}.wellformed"), wit(), format!("{e}; document: {}", trunc(&String::from_utf8_lossy(&doc), 400)));
+            l.fail(ctx, format!("C11.{area}.wellformed"), wit, format!("{e}; document: {}", trunc(&String::from_utf8_lossy(&doc), 400)));
         }
     }
     match guard(|| parse(&doc)) {
-        Err(p) => ctx.fail(&format!("C11.{area}.roundtrip.parse"), wit(), format!("parser panicked on the library's own output: {p}")),
-        Ok(Err(e)) => ctx.fail(&format!("C11.{area}.roundtrip.parse"), wit(),
+        Err(p) => l.fail(ctx, format!("C11.{area}.roundtrip.parse"), wit, format!("parser panicked on the library's own output: {p}")),
+        Ok(Err(e)) => l.fail(ctx, format!("C11.{area}.roundtrip.parse"), wit,
             format!("parse(write(m)) = Err({e}); document: {}", trunc(&String::from_utf8_lossy(&doc), 400))),
         Ok(Ok(back)) => if &back != m {
-            ctx.fail(&format!("C11.{area}.roundtrip.equal"), wit(),
+            l.fail(ctx, format!("C11.{area}.roundtrip.equal"), wit,
                 format!("parse(write(m)) != m; got {}; document: {}", trunc(&format!("{back:?}"), 300), trunc(&String::from_utf8_lossy(&doc), 300)));
         }
     }
 }
 
 fn run_cases<T: Sync>(cases: &[T], col: &Collector, f: impl Fn(&T, &mut Local) + Sync) {
-    cases.par_chunks(64).for_each(|chunk| {
+    let mut failing: Vec<usize> = cases.par_chunks(64).enumerate().flat_map_iter(|(ci, chunk)| {
         let mut l = Local::default();
-        for c in chunk { f(c, &mut l) }
+        let mut bad = Vec::new();
+        for (j, c) in chunk.iter().enumerate() {
+            l.failed = false;
+            f(c, &mut l);
+            if l.failed { bad.push(ci * 64 + j) }
+        }
         col.merge(l);
-    });
+        bad
+    }).collect();
+    failing.sort();
+    let mut l = Local::reporting();
+    for i in failing { f(&cases[i], &mut l) }
 }
 
 fn pub_write(m: &publ::Message) -> Vec<u8> { m.to_xml_bytes().to_vec() }
@@ -648,7 +703,7 @@ const CODES: [publ::ReportErrorCode; 8] = [
 ];
 
 fn space_publication(ctx: &Ctx, fx: &Fx) {
-    let k = 2;
+    let k = ctx.tier.pick(2, 3);
     // --- single-element deltas: star product over the fields
     let sp = ctx.space("pub.delta.single",
         "Message::delta with one element built by Publish/Update/Withdraw::new and ::with_hash_tag; fields kind x tag x uri x content x hash, star product (all fields on the core alphabet, at most k fields on the full one); non-trivial = distinct written documents");
@@ -659,16 +714,18 @@ fn space_publication(ctx: &Ctx, fx: &Fx) {
     let plain = 1 + fx.texts.iter().position(|t| t == "a").unwrap_or(1);
     let core_tag = [0usize, 1, plain, special];
     let cores: [&[usize]; 5] = [&[0, 1, 2, 3, 4, 5], &core_tag, &[1, 3], &[0, 3], &[2]];
-    let cases = star(&full, &cores, k);
+    let mid = [6, fx.n_tags_mid(), fx.rsyncs.len(), fx.contents.len(), fx.hashes.len()];
+    let cases = star2(&full, &mid, &cores, k);
     run_cases(&cases, &col, |c, l| {
         let e = El { kind: c[0], tag: c[1], uri: c[2], content: c[3], hash: c[4] };
-        if e.kind >= 3 && e.tag != 0 { return }
+        // fields a kind does not use stay on their first core value, so that no message is built twice
+        if (e.kind >= 3 && e.tag != 0) || (e.kind % 3 == 0 && e.hash != 2) || (e.kind % 3 == 2 && e.content != 0) { return }
         let m = delta_of(fx, &[e]);
         roundtrip(ctx, "pub", l, &m, &|| format!("pub.delta[{}]", show_el(fx, e)), &pub_write, &pub_parse);
     });
     sp.set("alphabet_sizes", serde_json::json!({"kinds": 6, "tags": fx.n_tags(), "uris": fx.rsyncs.len(), "contents": fx.contents.len(), "hashes": fx.hashes.len(), "k": k}));
     sp.sample_str(|| String::from_utf8_lossy(&pub_write(&delta_of(fx, &[El { kind: 1, tag: special, uri: 3, content: 3, hash: 2 }]))).into_owned());
-    col.finish(true, &format!("star product, k = {k}, text units up to length {}", ctx.tier.pick(2, 3)));
+    col.finish(true, &format!("star product, k = {k} on texts of <= 2 units and long values, k = 1 on texts of <= {} units", ctx.tier.pick(2, 3)));
 
     // --- sequences of up to 3 elements over a small element alphabet
     let sp = ctx.space("pub.delta.sequences",
@@ -696,7 +753,7 @@ fn space_publication(ctx: &Ctx, fx: &Fx) {
     let sp = ctx.space("pub.other",
         "list_query, success, list_reply with every sequence of 0..=3 elements over (uri core x hashes) plus every uri as a single element (ListReply::new and add_element), error replies with 1..=2 reports of every code (for_error / add_error); non-trivial = distinct written documents");
     let col = Collector::new(sp.clone());
-    let mut l = Local::default();
+    let mut l = Local::reporting();
     roundtrip(ctx, "pub", &mut l, &publ::Message::list_query(), &|| "pub.list_query".into(), &pub_write, &pub_parse);
     roundtrip(ctx, "pub", &mut l, &publ::Message::success(), &|| "pub.success".into(), &pub_write, &pub_parse);
     let mut lel: Vec<(usize, usize)> = Vec::new();
@@ -777,19 +834,20 @@ fn space_provisioning(ctx: &Ctx, fx: &Fx) {
     let special = fx.texts.iter().position(|t| t == "<&").map(|p| p - 1).unwrap_or(2);
     let plain = fx.texts.iter().position(|t| t == "a").map(|p| p - 1).unwrap_or(0);
     let core_class = [plain, special];
-    let core_h = [0usize, nh - 4];       // "-" and 255 x "a"
-    let long_h = [nh - 3];                // 255 x "/"
+    let (nhm, ncm) = (fx.handles_mid, fx.n_classes_mid());
+    let core_h = [0usize, fx.h_a255];     // "-" and 255 x "a"
+    let long_h = [fx.h_slash255];         // 255 x "/"
 
     // --- list, revoke, revoke_response, error_response
     let sp = ctx.space("prov.simple",
         "Message::list over sender x recipient handles; revoke and revoke_response (via From<&RevocationRequest>) over handles x class name x key; not_performed_response for all 11 codes; star product; non-trivial = distinct written documents");
     let col = Collector::new(sp.clone());
-    let cases = star(&[nh, nh], &[&core_h, &core_h], 2);
+    let cases = star2(&[nh, nh], &[nhm, nhm], &[&core_h, &core_h], 2);
     run_cases(&cases, &col, |c, l| {
         let m = prov::Message::list(fx.handle(c[0]), fx.handle(c[1]));
         roundtrip(ctx, "prov", l, &m, &|| format!("prov.list({})", show_hh(fx, c[0], c[1])), &prov_write, &prov_parse);
     });
-    let cases = star(&[2, nh, nh, fx.n_classes(), fx.keys.len()], &[&[0, 1], &core_h, &long_h, &core_class, &[2, 3]], 2);
+    let cases = star2(&[2, nh, nh, fx.n_classes(), fx.keys.len()], &[2, nhm, nhm, ncm, fx.keys.len()], &[&[0, 1], &core_h, &long_h, &core_class, &[2, 3]], 2);
     run_cases(&cases, &col, |c, l| {
         let req = prov::RevocationRequest::new(fx.class(c[3]), fx.keys[c[4]]);
         let m = if c[0] == 0 { prov::Message::revoke(fx.handle(c[1]), fx.handle(c[2]), req) }
@@ -802,8 +860,8 @@ fn space_provisioning(ctx: &Ctx, fx: &Fx) {
         (1104, prov::NotPerformedResponse::err_1104), (1201, prov::NotPerformedResponse::err_1201), (1202, prov::NotPerformedResponse::err_1202),
         (1203, prov::NotPerformedResponse::err_1203), (1204, prov::NotPerformedResponse::err_1204), (1301, prov::NotPerformedResponse::err_1301),
         (1302, prov::NotPerformedResponse::err_1302), (2001, prov::NotPerformedResponse::err_2001)];
-    let mut l = Local::default();
-    for (code, f) in errs { for h in [0usize, nh - 3] {
+    let mut l = Local::reporting();
+    for (code, f) in errs { for h in [0usize, fx.h_slash255] {
         let m = prov::Message::not_performed_response(fx.handle(h), fx.handle(0), f()).expect("constructor");
         if m.payload().payload_type().as_ref() != "error_response" { ctx.machinery_error("unexpected payload type") }
         roundtrip(ctx, "prov", &mut l, &m, &|| format!("prov.error_response({},code={code})", show_hh(fx, h, 0)), &prov_write, &prov_parse);
@@ -822,7 +880,7 @@ fn space_provisioning(ctx: &Ctx, fx: &Fx) {
     let all_csr: Vec<usize> = (0..fx.csrs.len()).collect();
     // full limit product on core handles / class / CSR, then the star over everything with a 2-point limit core
     let mut cases = star(&[nh, fx.n_classes(), na, nb, nc, fx.csrs.len()], &[&core_h, &core_class[1..], &all_a, &all_b, &all_c, &all_csr[..1]], 0);
-    cases.extend(star(&[nh, fx.n_classes(), na, nb, nc, fx.csrs.len()], &[&core_h, &core_class, &[0, 6], &[0, 8], &[0, 7], &all_csr[..1]], k));
+    cases.extend(star2(&[nh, fx.n_classes(), na, nb, nc, fx.csrs.len()], &[nhm, ncm, na, nb, nc, fx.csrs.len()], &[&core_h, &core_class, &[0, 6], &[0, 8], &[0, 7], &all_csr[..1]], k));
     cases.sort(); cases.dedup();
     run_cases(&cases, &col, |c, l| {
         let m = prov::Message::issue(fx.handle(c[0]), fx.handle(0), prov::IssuanceRequest::new(fx.class(c[1]), fx.limit(c[2], c[3], c[4]), fx.csrs[c[5]].1.clone()));
@@ -840,7 +898,8 @@ fn space_provisioning(ctx: &Ctx, fx: &Fx) {
     let nr = fx.rsyncs.len();
     let full = [fx.n_classes(), nr, fx.asn.len(), fx.v4.len(), fx.v6.len(), fx.times.len(), nr, na, nb, nc, fx.certs.len(), fx.certs.len()];
     let cores: [&[usize]; 12] = [&core_class, &[1], &[5], &[7], &[7], &[0], &[1], &[0], &[3], &[0], &[1], &[0]];
-    let mut cases = star(&full, &cores, k);
+    let mut mid = full; mid[0] = ncm;
+    let mut cases = star2(&full, &mid, &cores, k);
     for a in 0..fx.asn.len() { for b in 0..fx.v4.len() { for c in 0..fx.v6.len() {
         cases.push(vec![special, 3, a, b, c, 0, 4, 0, 3, 0, 1, 0]);
         cases.push(vec![plain, 1, a, b, c, 0, 1, a + 1, b + 1, c + 1, 2, 1]);
@@ -893,26 +952,27 @@ fn space_idexchange(ctx: &Ctx, fx: &Fx) {
     let special = 1 + fx.texts.iter().position(|t| t == "<&").unwrap_or(3);
     let plain = 1 + fx.texts.iter().position(|t| t == "a").unwrap_or(1);
     let core_tag = [0usize, 1, plain, special];
-    let core_h = [0usize, nh - 3];
+    let core_h = [0usize, fx.h_slash255];
+    let (nhm, ntm) = (fx.handles_mid, fx.n_tags_mid());
     let core_id = [0usize, 4];
     let nid = fx.idcerts.len();
     let ns = fx.services.len();
     let id = |i: usize| Base64::from_content(&fx.idcerts[i].1);
 
-    let cases = star(&[nid, nh], &[&core_id, &core_h], k);
+    let cases = star2(&[nid, nh], &[nid, nhm], &[&core_id, &core_h], k);
     run_cases(&cases, &col, |c, l| {
         let m = idx::ChildRequest::new(id(c[0]), fx.handle(c[1]));
         roundtrip(ctx, "idex", l, &m, &|| format!("idex.child_request(id_cert={},child_handle={})", fx.idcerts[c[0]].0, trunc(&fx.handles[c[1]], 40)),
             &|m| m.to_xml_vec(), &|b| idx::ChildRequest::parse(b).map_err(idx_err));
     });
-    let cases = star(&[nid, nh, nh, ns, fx.n_tags()], &[&core_id, &core_h, &core_h[..1], &[2, ns - 4], &core_tag], k);
+    let cases = star2(&[nid, nh, nh, ns, fx.n_tags()], &[nid, nhm, nhm, ns, ntm], &[&core_id, &core_h, &core_h[..1], &[2, ns - 4], &core_tag], k);
     run_cases(&cases, &col, |c, l| {
         let m = idx::ParentResponse::new(id(c[0]), fx.handle(c[1]), fx.handle(c[2]), fx.services[c[3]].clone(), fx.tag(c[4]));
         roundtrip(ctx, "idex", l, &m, &|| format!("idex.parent_response(id_cert={},parent_handle={},child_handle={},service_uri={},tag={})", fx.idcerts[c[0]].0,
             trunc(&fx.handles[c[1]], 40), trunc(&fx.handles[c[2]], 40), trunc(fx.services[c[3]].as_str(), 80), show_opt(&fx.tag(c[4]))),
             &|m| m.to_xml_vec(), &|b| idx::ParentResponse::parse(b).map_err(idx_err));
     });
-    let cases = star(&[nid, nh, fx.n_tags(), 2], &[&core_id, &core_h, &core_tag, &[0, 1]], k);
+    let cases = star2(&[nid, nh, fx.n_tags(), 2], &[nid, nhm, ntm, 2], &[&core_id, &core_h, &core_tag, &[0, 1]], k);
     run_cases(&cases, &col, |c, l| {
         let m = if c[3] == 0 { idx::PublisherRequest::new(id(c[0]), fx.handle(c[1]), fx.tag(c[2])) } else {
             let mut m = idx::PublisherRequest::new(id(c[0]), fx.handle(0), fx.tag(c[2])); m.set_publisher_handle(fx.handle(c[1])); m };
@@ -921,7 +981,7 @@ fn space_idexchange(ctx: &Ctx, fx: &Fx) {
             &|m| m.to_xml_vec(), &|b| idx::PublisherRequest::parse(b).map_err(idx_err));
     });
     let nr = fx.rsyncs.len(); let nhs = fx.httpss.len() + 1;
-    let cases = star(&[nid, nh, ns, nr, nhs, fx.n_tags()], &[&core_id[..1], &core_h[..1], &[2, ns - 4], &[3], &[0, 5], &core_tag], k);
+    let cases = star2(&[nid, nh, ns, nr, nhs, fx.n_tags()], &[nid, nhm, ns, nr, nhs, ntm], &[&core_id[..1], &core_h[..1], &[2, ns - 4], &[3], &[0, 5], &core_tag], k);
     run_cases(&cases, &col, |c, l| {
         let rrdp = if c[4] == 0 { None } else { Some(fx.httpss[c[4] - 1].clone()) };
         let m = idx::RepositoryResponse::new(id(c[0]), fx.handle(c[1]), fx.services[c[2]].clone(), fx.rsyncs[c[3]].clone(), rrdp.clone(), fx.tag(c[5]));
@@ -995,7 +1055,8 @@ fn seed_case(ctx: &Ctx, l: &mut Local, p: Parser, name: &str, doc: &[u8], must_p
         match guard(|| $parse(doc)) {
             Err(pn) => { l.evals += 1; ctx.fail(&format!("C11.parse.nopanic.{}", p.name()), wit(), pn) }
             Ok(Err(e)) => { l.evals += 1; l.bump("seed-not-accepted");
-                if must_parse { ctx.machinery_error(format!("hand-written seed {name} is not accepted by {}: {e}", p.name())) } }
+                // recorded, not judged: the property does not say which documents must be accepted
+                if must_parse { l.rejected_seeds.push(format!("{name}: {e}")) } }
             Ok(Ok(m)) => roundtrip(ctx, "seed", l, &m, &wit, &$write, &$parse),
         }
     }}}
@@ -1017,7 +1078,7 @@ fn space_seeds(ctx: &Ctx, fx: &Fx) {
     let sp = ctx.space("seed.decoded",
         "messages obtained through the public decoders from the repository's captured documents and from hand-written documents that set fields no constructor can set (tag on child_request and report_error, failed_pdu, absent description / error_text, referral and offer elements, suggested_sia_head, comments, single-quoted attributes, character references); then parse(write(m)) == m and well-formedness; non-trivial = distinct written documents");
     let col = Collector::new(sp.clone());
-    let mut l = Local::default();
+    let mut l = Local::reporting();
     for f in ["error-reply", "list-reply-empty-short", "list-reply-empty", "list-reply-single", "list-reply", "list", "publish-empty-short", "publish-empty", "publish-multi", "publish-single", "success-reply"] {
         seed_case(ctx, &mut l, Parser::Pub, f, &read(&format!("ca/rfc8181/{f}.xml")), false);
     }
@@ -1063,6 +1124,7 @@ fn space_seeds(ctx: &Ctx, fx: &Fx) {
             roundtrip(ctx, "prov.subsecond", &mut l, &m, &|| format!("prov.list_response(class notafter=2030-01-02T03:04:05Z + {label})"), &prov_write, &prov_parse);
         }
     }
+    sp.set("hand_written_documents_not_accepted", serde_json::json!(l.rejected_seeds));
     col.merge(l);
     sp.sample_str(|| hand[6].2.clone());
     col.finish(true, &format!("30 captured + {} hand-written documents + 2 fractional times", hand.len()));
@@ -1071,19 +1133,35 @@ fn space_seeds(ctx: &Ctx, fx: &Fx) {
 //============ Parsers on deviating and arbitrary input ======================
 
 const MENU: [u8; 11] = [b'<', b'>', b'&', b'"', b'\'', b'/', b'=', b' ', 0x00, 0xFF, b'a'];
-const MENU2: [u8; 5] = [b'<', b'&', b'"', b'/', 0x00];
 
-struct PLocal { evals: u64, out: BTreeMap<&'static str, u64>, notrt: Vec<String> }
+struct PLocal { evals: u64, out: BTreeMap<&'static str, u64>, notrt: Vec<String>, fails: Vec<(String, String, String)> }
 
-fn parse_case(ctx: &Ctx, p: Parser, input: &[u8], l: &mut PLocal, wit: &dyn Fn() -> String) {
+/// Panics found in a parallel phase, reported afterwards in witness order.
+struct Fails(Mutex<Vec<(String, String, String)>>);
+
+impl Fails {
+    fn take(&self, ctx: &Ctx, l: &mut PLocal) {
+        let mut g = self.0.lock().unwrap();
+        for f in l.fails.drain(..) {
+            if g.len() < 100_000 { g.push(f) } else { ctx.fail(&f.0, f.1, f.2) }
+        }
+    }
+    fn report(&self, ctx: &Ctx) {
+        let mut g = self.0.lock().unwrap();
+        g.sort();
+        for (o, w, d) in g.drain(..) { ctx.fail(&o, w, d) }
+    }
+}
+
+fn parse_case(_ctx: &Ctx, p: Parser, input: &[u8], l: &mut PLocal, wit: &dyn Fn() -> String) {
     l.evals += 1;
     match guard(|| p.run(input)) {
-        Err(pn) => { *l.out.entry("PANIC").or_insert(0) += 1; ctx.fail(&format!("C11.parse.nopanic.{}", p.name()), wit(), format!("{pn}; input {}", trunc(&hex(input), 200))) }
+        Err(pn) => { *l.out.entry("PANIC").or_insert(0) += 1; l.fails.push((format!("C11.parse.nopanic.{}", p.name()), wit(), format!("{pn}; input {}", trunc(&hex(input), 200)))) }
         Ok(Err(class)) => *l.out.entry(class).or_insert(0) += 1,
         Ok(Ok(again)) => {
             // informational only: accepted deviating documents need not hold protocol-valid fields
             match guard(again) {
-                Err(pn) => { *l.out.entry("PANIC").or_insert(0) += 1; ctx.fail(&format!("C11.parse.nopanic.{}", p.name()), wit(), format!("re-encoding / re-parsing the accepted message panicked: {pn}")) }
+                Err(pn) => { *l.out.entry("PANIC").or_insert(0) += 1; l.fails.push((format!("C11.parse.nopanic.{}", p.name()), wit(), format!("re-encoding / re-parsing the accepted message panicked: {pn}"))) }
                 Ok(Some(true)) => *l.out.entry("accepted").or_insert(0) += 1,
                 Ok(_) => { *l.out.entry("accepted-but-own-roundtrip-differs").or_insert(0) += 1; if l.notrt.len() < 2 { l.notrt.push(wit()) } }
             }
@@ -1130,17 +1208,23 @@ fn seed_documents(fx: &Fx) -> Vec<(&'static str, Parser, Vec<u8>)> {
 fn space_parsers(ctx: &Ctx, fx: &Fx) {
     let docs = seed_documents(fx);
     let sp = ctx.space("parse.deviations",
-        "one valid document per message type; every single-octet substitution from the menu < > & \" ' / = space NUL 0xFF a, every truncation, every single-octet deletion, every menu octet inserted at every offset, every attribute and element deleted or duplicated (spans from the strict checker), fed to the document's own parser (and every truncation to all six parsers); thorough: also every pair of substitutions from < & \" / NUL on documents under 700 octets; non-trivial = deviating inputs that differ from the seed");
+        "one valid document per message type; every single-octet substitution from the menu < > & \" ' / = space NUL 0xFF a, every truncation, every single-octet deletion, every menu octet inserted at every offset, every attribute and element deleted or duplicated (spans from the strict checker), fed to the document's own parser (and every truncation to all six parsers); thorough: also every pair of substitutions from the same menu on documents under 700 octets; non-trivial = deviating inputs that differ from the seed");
     for (name, p, d) in &docs {
-        // the seeds must be valid, or the deviations are not "one step away from valid"
-        if guard(|| p.run(d)).ok().and_then(|r| r.ok()).is_none() { ctx.machinery_error(format!("seed document {name} is not accepted by its parser")) }
+        // the seeds must be valid, or the deviations are not "one step away from valid"; all but one are
+        // the library's own output for a protocol-valid message, so a rejection is a round-trip failure
+        if guard(|| p.run(d)).ok().and_then(|r| r.ok()).is_none() {
+            ctx.fail(&format!("C11.{}.roundtrip.parse", name.split('.').next().unwrap()), format!("doc={name}"),
+                format!("the valid seed document is not accepted by its parser: {}", trunc(&String::from_utf8_lossy(d), 400)));
+        }
     }
     let notrt: Mutex<Vec<String>> = Mutex::new(Vec::new());
-    let merge = |l: PLocal, nontrivial: u64| {
+    let fails = Fails(Mutex::new(Vec::new()));
+    let merge = |mut l: PLocal, nontrivial: u64| {
+        fails.take(ctx, &mut l);
         sp.evals(l.evals); sp.nontrivial(nontrivial); sp.merge_outcomes(&l.out);
         let mut n = notrt.lock().unwrap(); for w in l.notrt { if n.len() < 64 { n.push(w) } }
     };
-    let new_local = || PLocal { evals: 0, out: BTreeMap::new(), notrt: Vec::new() };
+    let new_local = || PLocal { evals: 0, out: BTreeMap::new(), notrt: Vec::new(), fails: Vec::new() };
     for (name, p, d) in &docs {
         let n = d.len() as u64;
         // substitutions, deletions, insertions, truncations
@@ -1167,7 +1251,8 @@ fn space_parsers(ctx: &Ctx, fx: &Fx) {
         });
         // structural: attributes and elements
         match wf_check(d) {
-            Err(e) => ctx.machinery_error(format!("seed document {name} is not well-formed: {e}")),
+            Err(e) => ctx.fail(&format!("C11.{}.wellformed", name.split('.').next().unwrap()), format!("doc={name}"),
+                format!("{e}; document: {}", trunc(&String::from_utf8_lossy(d), 400))),
             Ok(spans) => {
                 let mut l = new_local(); let mut nt = 0;
                 for (kind, list) in [("attr", &spans.attrs), ("elem", &spans.elems)] {
@@ -1186,7 +1271,7 @@ fn space_parsers(ctx: &Ctx, fx: &Fx) {
             par_chunks(n, 4, |lo, hi| {
                 let mut l = new_local(); let mut nt = 0u64;
                 let mut buf = d.clone();
-                for i in lo as usize..hi as usize { for j in i + 1..d.len() { for b in MENU2 { for c in MENU2 {
+                for i in lo as usize..hi as usize { for j in i + 1..d.len() { for b in MENU { for c in MENU {
                     if d[i] == b || d[j] == c { continue }
                     buf[i] = b; buf[j] = c;
                     parse_case(ctx, *p, &buf, &mut l, &|| format!("doc={name} op=sub@{i}:{b:02x}+sub@{j}:{c:02x}")); nt += 1;
@@ -1196,6 +1281,7 @@ fn space_parsers(ctx: &Ctx, fx: &Fx) {
             });
         }
     }
+    fails.report(ctx);
     sp.set("documents", serde_json::json!(docs.iter().map(|(n, _, d)| format!("{n}:{} octets", d.len())).collect::<Vec<_>>()));
     let mut n = notrt.lock().unwrap().clone(); n.sort(); n.truncate(12);
     sp.set("accepted_deviations_whose_own_roundtrip_differs_sample", serde_json::json!(n));
@@ -1214,8 +1300,10 @@ fn space_parsers(ctx: &Ctx, fx: &Fx) {
             bytes.clear(); bytes.extend(s.iter().map(|x| *x as u8));
             for p in PARSERS { parse_case(ctx, p, &bytes, &mut l, &|| format!("bytes={} parser={}", hex(&bytes), p.name())); }
         }
+        fails.take(ctx, &mut l);
         sp.evals(l.evals); sp.nontrivial(l.evals); sp.merge_outcomes(&l.out);
     });
+    fails.report(ctx);
     sp.sample_str(|| format!("\"<a>\" into publication: {:?}", publ::Message::decode(&b"<a>"[..]).err().map(|e| e.to_string())));
     sp.done(true, &format!("all octet strings of length <= {maxlen} x 6 parsers"));
 }
